@@ -39,7 +39,8 @@ ACCOUNTS = ["Assets:Bank:Checking", "Assets:Cash", "Expenses:Food", "Expenses:Fo
 BAD_ACCOUNTS = ["Assets:Bank2", "Expenses:Misc3"]     # end in a digit: "may be misspelled" variant
 BUCKET = "Assets:Bucket"
 
-REG_FMT = "%(display_account)|%(verif_rational(amount))|%(calculated)|%(cost_calculated)|%(has_cost)|%(verif_rational(cost))\n"
+REG_FMT = ("%(display_account)|%(verif_rational(amount))|%(calculated)|%(cost_calculated)|%(has_cost)|%(verif_rational(cost))"
+           "|%(verif_rational(lot_price(amount)))|%(verif_rational(lot_price(cost)))\n")
 LIMIT_MUST_BALANCE = "real | !(display_account =~ /^[(]/)"     # ordinary and [bracketed] postings
 
 
@@ -75,8 +76,13 @@ def amt(q, cname, dec=None):
 
 def cost_total(p):
     """signed total cost of a posting as a Fraction (textual.cc: `@` multiplies by the
-    signed amount, `@@` takes the amount's sign)."""
+    signed amount, `@@` takes the amount's sign).  When the amount carries a lot price in
+    the cost's commodity, finalize replaces the cost by the basis cost lot price x quantity
+    (xact.cc 301-327: the difference is a gain/loss the transaction has to account for)."""
     q = jgen.amt_q(p["amount"])
+    lp = lot_unit_price(p["amount"])
+    if lp is not None and lp[1] == p["cost"]["comm"]:
+        return lp[0] * q
     cq = jgen.amt_q(p["cost"])
     if p["cost"]["per_unit"]:
         return cq * q
@@ -106,7 +112,7 @@ def describe(case):
         if p["cost"] is not None:
             c, q = p["cost"]["comm"], cost_total(p)
         else:
-            c, q = p["amount"]["comm"], jgen.amt_q(p["amount"])
+            c, q = lot_key(p["amount"]), jgen.amt_q(p["amount"])
         if c not in present and q != 0:
             present.append(c)
         res[c] = res.get(c, F(0)) + q
@@ -158,7 +164,7 @@ def classify(case):
     if all(q == 0 for q in d["res"].values()):
         return "exact"
     env = env_after(case)
-    units = {c: abs(q) * 10 ** env.get(c, 0) for c, q in d["res"].items()}
+    units = {c: abs(q) * 10 ** env.get(base_of(c), 0) for c, q in d["res"].items()}
     if all(u * 2 < 1 for u in units.values()):
         return "within"
     nz = [c for c, q in d["res"].items() if q != 0]
@@ -179,7 +185,7 @@ def describe_entries(case):
         if p["cost"] is not None:
             c, q = p["cost"]["comm"], cost_total(p)
         else:
-            c, q = p["amount"]["comm"], jgen.amt_q(p["amount"])
+            c, q = lot_key(p["amount"]), jgen.amt_q(p["amount"])
         if q != 0 and c not in out:
             out.append(c)
     return out
@@ -191,13 +197,66 @@ def half_unit_tie(case):
     d = describe(case)
     env = env_after(case)
     for c, q in d["res"].items():
-        if q != 0 and abs(q) * 10 ** env.get(c, 0) * 2 == 1:
+        if q != 0 and abs(q) * 10 ** env.get(base_of(c), 0) * 2 == 1:
             return True
     return False
 
 
 # ---------------------------------------------------------------------------
 # rendering and running
+
+
+def lot_text(lot, comms):
+    t = ""
+    if lot.get("price") is not None:
+        pr = jgen.render_amount(lot["price"], comms)
+        if lot.get("fixated"):
+            pr = "=" + pr
+        t += " {{%s}}" % pr if lot.get("total") else " {%s}" % pr
+    if lot.get("date") is not None:
+        t += " [" + jgen.date_text(lot["date"]) + "]"
+    if lot.get("tag"):
+        t += " (" + lot["tag"] + ")"
+    return t
+
+
+def render_post(p, comms):
+    lot = (p.get("amount") or {}).get("lot")
+    if not lot:
+        return jgen.render_post(p, comms)
+    t = jgen.render_post(dict(p, cost=None, note="", **{"assert": None}), comms) + lot_text(lot, comms)
+    if p["cost"]:
+        t += (" @ " if p["cost"]["per_unit"] else " @@ ") + jgen.render_amount(p["cost"], comms)
+    return t
+
+
+def render_xact(x, comms):
+    head = jgen.render_xact(dict(x, posts=[]), comms)[0]
+    return [head] + [render_post(p, comms) for p in x["posts"]]
+
+
+def lot_key(a):
+    """commodity key of a written amount (annotated commodity when it carries a lot)"""
+    lot = a.get("lot")
+    if not lot:
+        return a["comm"]
+    ptxt = ""
+    if lot.get("price") is not None:
+        pq = jgen.amt_q(lot["price"])
+        if lot.get("total"):
+            pq = pq / abs(jgen.amt_q(a))
+        ptxt = "%d/%d %s" % (pq.numerator, pq.denominator, lot["price"]["comm"])
+    return enc_lot(a["comm"], ptxt, jgen.date_text(lot["date"]) if lot.get("date") is not None else "", lot.get("tag") or "")
+
+
+def lot_unit_price(a):
+    lot = a.get("lot")
+    if not lot or lot.get("price") is None:
+        return None
+    pq = jgen.amt_q(lot["price"])
+    if lot.get("total"):
+        pq = pq / abs(jgen.amt_q(a))
+    return pq, lot["price"]["comm"]
 
 
 def render_items(items, comms):
@@ -208,7 +267,7 @@ def render_items(items, comms):
             out.append("A " + v)
             out.append("")
         else:
-            lines = jgen.render_xact(v, comms)
+            lines = render_xact(v, comms)
             v["line"] = len(out) + 1
             for i, p in enumerate(v["posts"]):
                 p["line"] = len(out) + 2 + i
@@ -241,22 +300,69 @@ def case_text(case):
     return render_items(case_items(case), POOL)
 
 
-def parse_vr_amount(s):
-    """`A:num/den:prec:keep:commodity[ {annotation}…]` -> (Fraction, prec, keep, commodity)"""
+def split_comm(text):
+    """printed (annotated) commodity -> (base, has_price, date text, tag)"""
+    t = text.strip()
+    base, rest = t, ""
+    if t.startswith('"'):
+        k = t.find('"', 1)
+        base, rest = t[1:k], t[k + 1:]
+    else:
+        for mark in (" {", " [", " ("):
+            k = t.find(mark)
+            if k >= 0 and (len(base) > k):
+                base, rest = t[:k], t[k:]
+        base = base.strip()
+    has_price, date, tag = False, "", ""
+    r = rest.strip()
+    while r:
+        if r[0] == "{":
+            k = r.find("}")
+            has_price = True
+            r = r[k + 1:].strip()
+        elif r[0] == "[":
+            k = r.find("]")
+            date = r[1:k]
+            r = r[k + 1:].strip()
+        elif r[0] == "(":
+            k = r.find(")")
+            tag = r[1:k]
+            r = r[k + 1:].strip()
+        else:
+            break
+    return base, has_price, date, tag
+
+
+def enc_lot(base, price, date, tag):
+    """the commodity key of Model/Finalize.lean (= Model/Reports.lean): BASE{num/den SYM}[date](tag)"""
+    if not (price or date or tag):
+        return base
+    return "%s{%s}[%s](%s)" % (base, price, date, tag)
+
+
+def base_of(key):
+    k = key.find("{")
+    return key if k < 0 else key[:k]
+
+
+def parse_vr_amount(s, lot_price=None):
+    """`A:num/den:prec:keep:commodity[ {annotation}…]` (+ verif_rational of its lot price)
+    -> (Fraction, prec, keep, commodity key); without a lot price the key is the base commodity"""
     if not s.startswith("A:"):
         return ("?", s)
     q, prec, keep, comm = s[2:].split(":", 3)
-    k = comm.find(" {")
-    if k >= 0:
-        comm = comm[:k]
-    k = comm.find(" [")
-    if k >= 0:
-        comm = comm[:k]
-    comm = comm.strip()
-    if len(comm) >= 2 and comm[0] == '"' and comm[-1] == '"':
-        comm = comm[1:-1]
+    base, has_price, date, tag = split_comm(comm)
     n, d = q.split("/")
-    return (F(int(n), int(d)), int(prec), int(keep), comm)
+    key = base
+    if lot_price is not None:
+        ptxt = ""
+        if has_price and lot_price.startswith("A:"):
+            pq, pp, pk, pc = lot_price[2:].split(":", 3)
+            pn, pd = pq.split("/")
+            f = F(int(pn), int(pd))
+            ptxt = "%d/%d %s" % (f.numerator, f.denominator, split_comm(pc)[0])
+        key = enc_lot(base, ptxt, date, tag)
+    return (F(int(n), int(d)), int(prec), int(keep), key)
 
 
 def parse_vr_balance(s):
@@ -303,7 +409,7 @@ def parse_rows(out):
         if not line:
             continue
         f = line.split("|")
-        if len(f) != 6:
+        if len(f) != 8:
             rows.append(("?", line))
             continue
         acct = f[0]
@@ -314,8 +420,8 @@ def parse_rows(out):
             kind, acct = "bvirtual", acct[1:-1]
         if acct.startswith("Warm:"):
             continue
-        a = parse_vr_amount(f[1])
-        cost = parse_vr_amount(f[5]) if f[4] == "true" else None
+        a = parse_vr_amount(f[1], f[6])
+        cost = parse_vr_amount(f[5], f[7]) if f[4] == "true" else None
         rows.append((acct, kind, a, f[2] == "true", f[3] == "true", cost))
     return rows
 
@@ -342,7 +448,7 @@ def run_ledger_text(text, extra_cmds=()):
         f.write(text)
         path = f.name
     try:
-        rc, out, err = _ledger(["-f", path, "reg", "--empty", "--format", REG_FMT])
+        rc, out, err = _ledger(["-f", path, "reg", "--lots", "--empty", "--format", REG_FMT])
         extra = [_ledger(["-f", path] + list(c)) for c in extra_cmds]
     finally:
         os.unlink(path)
@@ -639,6 +745,102 @@ class TGen:
         return self.case(ps, "cancel:%s:%dc:%dn%s" % (mode, ncomm, nnull, ":extra" if extra else ""),
                          bucket=BUCKET if r.random() < 0.2 else None, warm=self.warm_for(cs, 0.2))
 
+    # -- lots -----------------------------------------------------------------
+    def lot_amount(self, stock, money, q, kind=None):
+        """an amount of `stock` with a lot annotation priced in `money`"""
+        r = self.rng
+        kind = kind or r.choice(["price", "price", "price", "price-date", "price-date-tag", "total", "fixated", "date", "tag",
+                                 "price-tag", "other-comm"])
+        a = jgen.amt(q, stock, max(stock.dec, decimals_needed(q)))
+        pdec = money.dec if r.random() < 0.8 else r.randint(0, min(8, money.dec + 2))
+        price = F(r.randint(1, 300 * 10 ** pdec), 10 ** pdec)
+        lot = {"price": None, "total": False, "fixated": False, "date": None, "tag": ""}
+        if kind.startswith("price") or kind == "fixated":
+            lot["price"] = jgen.amt(price, money, pdec)
+            lot["fixated"] = kind == "fixated"
+        if kind == "total":
+            tot = price * abs(q)
+            d = decimals_needed(tot)
+            if d is None or d > 12:
+                tot = F(r.randint(1, 10 ** 6), 100)
+                d = 2
+            lot["price"] = jgen.amt(tot, money, max(d, 0))
+            lot["total"] = True
+        if kind == "other-comm":
+            oc = r.choice([c for c in POOL if c.name not in (stock.name, money.name)])
+            lot["price"] = jgen.amt(F(r.randint(1, 999), 10 ** min(oc.dec, 2)), oc, min(oc.dec, 2))
+        if "date" in kind:
+            lot["date"] = jgen.day_of(2018, 1, 1) + r.randint(0, 700)
+        if "tag" in kind:
+            lot["tag"] = r.choice(["lotA", "b2", "x"])
+        a["lot"] = lot
+        return a
+
+    def lots(self):
+        """purchases and sales of lots: `{price}`, `{{total}}`, `{=fixed}`, `[date]`, `(tag)` with and
+        without `@` / `@@`, sells (negative quantities), a gains posting or an elided amount next to them"""
+        r = self.rng
+        stock, money = self.comms(2)
+        n = r.choice([1, 1, 2, 2, 3])
+        ps = []
+        for _ in range(n):
+            q = abs(self.quantity(stock, mag=r.choice([0, 1, 2, 4]), dec=stock.dec if r.random() < 0.8 else 0))
+            if r.random() < 0.45:
+                q = -q
+            a = self.lot_amount(stock, money, q)
+            p = post(r.choice(ACCOUNTS), self.kind(0.07, 0.12), a, state=r.choice([0, 0, 1, 2]))
+            x = r.random()
+            lp = lot_unit_price(a)
+            if x < 0.55:
+                cdec = money.dec if r.random() < 0.8 else r.randint(0, 6)
+                if lp is not None and lp[1] == money.name and r.random() < 0.4 and decimals_needed(lp[0]) is not None \
+                        and decimals_needed(lp[0]) <= 8:
+                    cq, cdec = lp[0], max(money.dec, decimals_needed(lp[0]))      # sold / bought at the lot price
+                else:
+                    cq = F(r.randint(1, 400 * 10 ** cdec), 10 ** cdec)
+                per_unit = r.random() < 0.7
+                if not per_unit:
+                    cq = cq * abs(q)
+                    cdec = max(cdec, decimals_needed(cq) or 0)
+                p["cost"] = dict(jgen.amt(cq, money, cdec), per_unit=per_unit)
+            ps.append(p)
+        if r.random() < 0.3:
+            ps.append(post(r.choice(ACCOUNTS), "real", jgen.amt(self.quantity(money, mag=2), money)))
+        mode = r.choice(["null", "null", "explicit", "explicit", "explicit-off", "none"])
+        totals = any((p["amount"].get("lot") or {}).get("total") for p in ps)
+        if mode.startswith("explicit") and totals:
+            mode = "null"
+        if mode == "null":
+            ps.insert(r.randint(0, len(ps)), post(r.choice(ACCOUNTS), r.choice(["real", "real", "bvirtual"]), None))
+        elif mode.startswith("explicit"):
+            d = describe({"xact": xact(ps)})
+            keyed = {}
+            for p in ps:
+                if p["amount"] is not None:
+                    keyed[lot_key(p["amount"])] = p["amount"]
+            first = True
+            for key, q in sorted(d["res"].items()):
+                if q == 0:
+                    continue
+                delta = 0
+                if mode == "explicit-off" and first:
+                    delta = r.choice([1, -1, 2])
+                first = False
+                if key in keyed and keyed[key].get("lot"):
+                    src = keyed[key]
+                    c = CMAP[src["comm"]]
+                    qq = -q + delta
+                    a = jgen.amt(qq, c, max(c.dec, decimals_needed(qq)))
+                    a["lot"] = dict(src["lot"])
+                else:
+                    c = CMAP[key]
+                    qq = -q + delta
+                    a = jgen.amt(qq, c, max(c.dec, decimals_needed(qq)))
+                ps.append(post(r.choice(ACCOUNTS), "real", a))
+            r.shuffle(ps)
+        return self.case(ps, "lots:" + mode, warm=self.warm_for([stock, money], 0.25),
+                         bucket=BUCKET if r.random() < 0.15 else None)
+
     def oddities(self):
         """null amount on a plain virtual posting, all-null transactions, amounts
         without commodity, cost in the amount's own commodity, zero amounts"""
@@ -761,6 +963,47 @@ def gen_journal(rng, n, p_bad=0.0, p_bucket=0.15, exact_only=False):
     return items
 
 
+def gen_lot_journal(rng, n):
+    """buys, then sells against the earlier lots (same annotation text), gains posted or elided"""
+    g = TGen(rng)
+    stock, money = g.comms(2)
+    items = []
+    day = jgen.day_of(2020, 1, 1)
+    lots = []
+    for i in range(n):
+        day += rng.randint(0, 5)
+        if not lots or rng.random() < 0.5:
+            q = abs(g.quantity(stock, mag=rng.choice([0, 1, 2]), dec=0))
+            pdec = money.dec
+            price = F(rng.randint(1, 200 * 10 ** pdec), 10 ** pdec)
+            lot = {"price": jgen.amt(price, money, pdec), "total": False, "fixated": False,
+                   "date": day if rng.random() < 0.6 else None, "tag": rng.choice(["", "", "l%d" % i])}
+            lots.append((lot, q))
+            a = jgen.amt(q, stock, stock.dec)
+            a["lot"] = dict(lot)
+            p = post("Assets:Broker", "real", a)
+            if rng.random() < 0.5:
+                p["cost"] = dict(jgen.amt(price, money, pdec), per_unit=True)
+            ps = [p, post("Assets:Cash", "real", None)]
+        else:
+            k = rng.randrange(len(lots))
+            lot, have = lots[k]
+            q = min(have, abs(g.quantity(stock, mag=0, dec=0)))
+            a = jgen.amt(-q, stock, stock.dec)
+            a["lot"] = dict(lot)
+            sell = F(rng.randint(1, 300 * 10 ** money.dec), 10 ** money.dec)
+            p = post("Assets:Broker", "real", a)
+            p["cost"] = dict(jgen.amt(sell, money, money.dec), per_unit=True)
+            ps = [p, post("Assets:Cash", "real", jgen.amt(sell * q, money, max(money.dec, decimals_needed(sell * q)))),
+                  post("Income:Gains", "real", None)]
+            if have - q > 0:
+                lots[k] = (lot, have - q)
+            else:
+                lots.pop(k)
+        items.append(("xact", xact(ps, date=day, payee="lot%d" % i)))
+    return items
+
+
 def journal_model_line(items, enum="id"):
     js = {"items": [({"bucket": v} if k == "bucket" else {"xact": v}) for k, v in items]}
     return "journal.fin\t%s\t%s" % (json.dumps(js, ensure_ascii=False), enum)
@@ -780,7 +1023,8 @@ def parse_journal_model(ans):
         c, _, q = kv.rpartition("=")
         n, d = q.split("/")
         if int(n) != 0:
-            tot[c] = F(int(n), int(d))
+            tot[base_of(c)] = tot.get(base_of(c), F(0)) + F(int(n), int(d))     # reports strip lot annotations
+    tot = {c: q for c, q in tot.items() if q != 0}
     return {"kind": "ok", "errors": int(f[1]), "accepted": int(f[2]), "total": tot, "rows": rows}
 
 
@@ -846,9 +1090,9 @@ def oracle_c01(case, led):
         env = env_after(case)
         if res is not None:
             for c, q in res.items():
-                if c == "" and q != 0 or c != "" and abs(q) * 10 ** env.get(c, 0) * 2 > 1:
+                if c == "" and q != 0 or c != "" and abs(q) * 10 ** env.get(base_of(c), 0) * 2 > 1:
                     out.append(("C01:accepted-not-balanced", "accepted transaction sums to %s %s at cost (display precision %d)" %
-                                (q, c, env.get(c, 0))))
+                                (q, c, env.get(base_of(c), 0))))
                     break
             if cls in ("exact", "one-null", "bucket") and any(q != 0 for q in res.values()):
                 out.append(("C01:accepted-not-exact", "accepted transaction without sub-unit costs does not sum to exactly zero: %s" %
@@ -893,7 +1137,9 @@ def oracle_c02(case, led):
             continue
         r = rows[j]
         a = p["amount"]
-        if (r[0], r[1]) != (p["account"], p["kind"]) or r[3] or a is None or (r[2][0], r[2][3]) != (jgen.amt_q(a), a["comm"]):
+        keeps_lot = a is not None and (p["cost"] is None or lot_unit_price(a) is not None)
+        if (r[0], r[1]) != (p["account"], p["kind"]) or r[3] or a is None or \
+                (r[2][0], base_of(r[2][3])) != (jgen.amt_q(a), a["comm"]) or (keeps_lot and r[2][3] != lot_key(a)):
             out.append(("C02:explicit-changed", "posting %d (%s) comes back as %s" % (j, p["account"], show_rows([r])[0])))
             return out
     want = {c: -q for c, q in d["res"].items()}
@@ -953,7 +1199,7 @@ def shrink(case, still_fails):
 
 def replay_obj(case, led, fps):
     return {"journal": case_text(case), "case": case, "class": classify(case),
-            "cmd": "ledger -f J reg --empty --format '%s'" % REG_FMT.replace("\n", "\\n"),
+            "cmd": "ledger -f J reg --lots --empty --format '%s'" % REG_FMT.replace("\n", "\\n"),
             "ledger": {"rc": led["rc"], "kind": led["kind"], "stderr": led["stderr"][-600:], "rows": show_rows(led["rows"])},
             "oracle": fps}
 
@@ -1198,6 +1444,90 @@ def boundary_cases(rng):
         add([post("A", "real", amt(q, "EUR")), post("B", "real", None)], "big-null")
     add([post("A", "real", jgen.amt(F(1, 10 ** 8), CMAP["BTC"])), post("B", "real", jgen.amt(-F(1, 10 ** 8), CMAP["BTC"]))], "tiny")
     add([post("A", "real", jgen.amt(F(2, 10 ** 8), CMAP["BTC"])), post("B", "real", jgen.amt(-F(1, 10 ** 8), CMAP["BTC"]))], "tiny-off")
+    out += lot_boundary_cases(g)
+    return out
+
+
+def lot_boundary_cases(g):
+    """lots: `{price}`, `{{total}}`, `{=fixed}`, `[date]`, `(tag)` with / without `@` / `@@`; bought and sold at,
+    above and below the lot price, with the gain posted, missing, or absorbed by an elided posting; several lots
+    of one commodity next to an elided posting (order of the inferred postings); lot price in another commodity
+    than the cost; (virtual) lot postings; implicit exchange against a lot; sub-unit lot prices."""
+    out = []
+    d0 = jgen.day_of(2019, 1, 1)
+
+    def la(q, c, price=None, pc="$", pdec=2, total=False, fixated=False, date=None, tag=""):
+        a = amt(q, c)
+        a["lot"] = {"price": jgen.amt(F(price), CMAP[pc], pdec) if price is not None else None, "total": total,
+                    "fixated": fixated, "date": date, "tag": tag}
+        return a
+
+    def cost(p, q, c="$", dec=2, per_unit=True):
+        p = dict(p)
+        p["cost"] = dict(jgen.amt(F(q), CMAP[c], dec), per_unit=per_unit)
+        return p
+
+    def add(ps, tag, **kw):
+        out.append(g.case(ps, "lot-edge:" + tag, **kw))
+
+    P = post
+    for sgn in (1, -1):
+        q = 10 * sgn
+        add([P("A", "real", la(q, "AAA", 5)), P("B", "real", None)], "nocost-null")
+        add([P("B", "real", None), P("A", "real", la(q, "AAA", 5))], "nocost-null-first")
+        add([P("A", "real", la(q, "AAA", 5)), P("B", "real", la(-q, "AAA", 5))], "nocost-same-lot")
+        add([P("A", "real", la(q, "AAA", 5)), P("B", "real", la(-q, "AAA", 6))], "nocost-other-lot")
+        add([P("A", "real", la(q, "AAA", 5)), P("B", "real", amt(-q, "AAA"))], "nocost-vs-plain")
+        add([P("A", "real", la(q, "AAA", 5)), P("B", "real", amt(-5 * q, "$"))], "nocost-implicit-at-lot-price")
+        add([P("A", "real", la(q, "AAA", 5)), P("B", "real", amt(-6 * q, "$"))], "nocost-implicit-off-lot-price")
+        for cq, name in ((5, "at"), (7, "above"), (3, "below")):
+            add([cost(P("A", "real", la(q, "AAA", 5)), cq), P("B", "real", amt(-cq * q, "$"))], "cost-%s-nogain" % name)
+            add([cost(P("A", "real", la(q, "AAA", 5)), cq), P("B", "real", amt(-cq * q, "$")),
+                 P("G", "real", amt((cq - 5) * q, "$"))], "cost-%s-gain" % name)
+            add([cost(P("A", "real", la(q, "AAA", 5)), cq), P("B", "real", amt(-cq * q, "$")), P("G", "real", None)],
+                "cost-%s-gain-elided" % name)
+            add([cost(P("A", "real", la(q, "AAA", 5)), cq), P("B", "real", None)], "cost-%s-null" % name)
+            add([cost(P("A", "real", la(q, "AAA", 5)), cq * abs(q), per_unit=False), P("B", "real", None)], "totalcost-%s-null" % name)
+            add([cost(P("A", "virtual", la(q, "AAA", 5)), cq), P("B", "real", amt(3, "$")), P("C", "real", amt(-3, "$"))],
+                "virtual-lot-%s" % name)
+            add([cost(P("A", "bvirtual", la(q, "AAA", 5)), cq), P("B", "real", None)], "bracket-lot-%s" % name)
+        add([cost(P("A", "real", la(q, "AAA", 50, total=True)), 50, per_unit=False), P("B", "real", None)], "total-lot")
+        add([cost(P("A", "real", la(q, "AAA", 50, total=True)), 7), P("B", "real", None)], "total-lot-gain")
+        add([P("A", "real", la(q, "AAA", 50, total=True)), P("B", "real", None)], "total-lot-nocost")
+        add([P("A", "real", la(q, "AAA", 5, fixated=True)), P("B", "real", None)], "fixated")
+        add([cost(P("A", "real", la(q, "AAA", 5, fixated=True)), 6), P("B", "real", None)], "fixated-cost")
+        add([cost(P("A", "real", la(q, "AAA", date=d0)), 5), P("B", "real", None)], "date-only-cost")
+        add([P("A", "real", la(q, "AAA", date=d0)), P("B", "real", None)], "date-only")
+        add([cost(P("A", "real", la(q, "AAA", tag="mytag")), 5), P("B", "real", None)], "tag-cost")
+        add([P("A", "real", la(q, "AAA", tag="lotx")), P("B", "real", amt(-q, "AAA"))], "tag-vs-plain")
+        add([cost(P("A", "real", la(q, "AAA", 5, pc="EUR")), 7), P("B", "real", None)], "price-other-comm")
+        add([cost(P("A", "real", la(q, "AAA", 5, date=d0, tag="t1")), 7), P("B", "real", amt(-7 * q, "$")),
+             P("G", "real", amt(2 * q, "$"))], "full-annotation-gain")
+        add([cost(P("A", "real", la(3 * sgn, "AAA", "5.123", pdec=3)), "5.123", dec=3), P("B", "real", amt(F("-15.37") * sgn, "$"))],
+            "subunit-lot")
+        add([cost(P("A", "real", la(3 * sgn, "AAA", "5.123", pdec=3)), "5.124", dec=3), P("B", "real", amt(F("-15.37") * sgn, "$"))],
+            "subunit-lot-gain")
+        add([cost(P("A", "real", amt(q, "AAA")), 5), P("B", "real", None)], "plain-cost")
+    # several lots of one commodity next to an elided posting: order of the inferred postings
+    multi = [P("A", "real", la(10, "AAA", 5, date=d0 + 31)), P("A", "real", la(5, "AAA", 6)), P("A", "real", la(5, "AAA", 5, date=d0, tag="x")),
+             P("A", "real", la(5, "AAA", 5, date=d0)), P("A", "real", la(2, "AAA", tag="zz")), P("A", "real", amt(3, "AAA")),
+             P("A", "real", la(1, "AAA", 6, pc="EUR")), P("A", "real", la(1, "AAA", 7, pc="EUR")), P("A", "real", la(1, "AAA", date=d0 - 300))]
+    for pos in (0, 4, len(multi)):
+        ps = [dict(p) for p in multi]
+        ps.insert(pos, P("B", "real", None))
+        add(ps, "multi-lot-null")
+    add([dict(p) for p in reversed(multi)] + [P("B", "bvirtual", None)], "multi-lot-null-reversed")
+    # selling two lots at once with the gain elided / posted
+    add([cost(P("A", "real", la(-10, "AAA", 5, date=d0)), 7), cost(P("A", "real", la(-4, "AAA", 6, date=d0 + 31)), 7),
+         P("Cash", "real", amt(98, "$")), P("Gains", "real", None)], "sell-two-lots")
+    add([cost(P("A", "real", la(-10, "AAA", 5, date=d0)), 7), cost(P("A", "real", la(-4, "AAA", 6, date=d0 + 31)), 7),
+         P("Cash", "real", amt(98, "$")), P("Gains", "real", amt(-24, "$"))], "sell-two-lots-explicit")
+    add([cost(P("A", "real", la(-10, "AAA", 5, date=d0)), 7), cost(P("A", "real", la(-4, "AAA", 6, date=d0 + 31)), 7),
+         P("Cash", "real", amt(98, "$")), P("Gains", "real", amt(-23, "$"))], "sell-two-lots-off")
+    # two nulls / bucket next to lots
+    add([P("A", "real", la(10, "AAA", 5)), P("B", "real", None), P("C", "real", None)], "lot-two-nulls")
+    add([P("A", "real", la(10, "AAA", 5))], "lot-single-bucket", bucket=BUCKET)
+    add([cost(P("A", "real", la(10, "AAA", 5)), 7)], "lot-cost-single-bucket", bucket=BUCKET)
     return out
 
 
